@@ -536,6 +536,8 @@ impl Check for C04 {
             PhaseSpec { name: "layouts", cases: tier.pick(4_000, 60_000), max_bytes: 1500, exhaustive: false },
             PhaseSpec { name: "prog", cases: tier.pick(40_000, 600_000), max_bytes: 500, exhaustive: false },
             PhaseSpec { name: "illprog", cases: tier.pick(20_000, 300_000), max_bytes: 420, exhaustive: false },
+            // hand-written programs with shapes the generator does not build (self-referential generic types)
+            PhaseSpec { name: "directed", cases: crate::props::prog::DIRECTED.len() as u64, max_bytes: 0, exhaustive: true },
             // programs with `go` (closure literals and plain functions as the spawned value)
             PhaseSpec { name: "goprog", cases: tier.pick(3_000, 40_000), max_bytes: 80, exhaustive: false },
         ]
@@ -573,6 +575,7 @@ impl Check for C04 {
                 }
             }
             "repeat" => Case::new(json!({"text": crate::textgen::repeat_text(if ctx.tier == Tier::Thorough { index } else { index * 3 + ctx.seed % 3 })})),
+            "directed" => Case::new(json!({"text": crate::props::prog::DIRECTED[index as usize % crate::props::prog::DIRECTED.len()].1, "prog": true})),
             "goprog" => {
                 let p = crate::gogen::gen_go_program(&mut d);
                 Case::new(json!({"text": crate::gen::render::render(&p), "prog": true}))
